@@ -44,6 +44,13 @@ impl<'a> DocGen<'a> {
             1 => format!("[[{}|{}]]", dest, text),
             2 => format!("[{}]({} \"{}\")", text, dest, self.word()),
             3 => format!("[*{}*]({})", text, dest),
+            4 => match self.rng.below(5) {
+                0 => format!("[{}](<{}>)", text, dest),
+                1 => format!("[{}]( {} )", text, dest),
+                2 => format!("[**{}** `{}`]({})", text, self.word(), dest),
+                3 => format!("[![{}](img/{}.png) {}]({})", self.word(), self.n, text, dest),
+                _ => format!("[{} \\[x\\]]({})", text, dest),
+            },
             _ => format!("[{}]({})", text, dest),
         }
     }
@@ -150,15 +157,31 @@ fn pos_of(text: &str, scan: &Scan, byte: usize) -> (usize, usize) {
 
 /// utf16 column -> is it inside [start, end) given both on the same line
 fn dest_span(text: &str, l: &mdscan::LinkOcc) -> Option<(usize, usize)> {
-    // `[text](url)` shaped links only: the destination starts after the last "](" before the url
     let src = &text[l.range.clone()];
+    // wiki links: the destination follows the opening brackets
+    if matches!(l.kind, LKind::Wiki | LKind::WikiPiped) {
+        if src.starts_with("[[") && src[2..].starts_with(&l.dest) {
+            return Some((l.range.start + 2, l.range.start + 2 + l.dest.len()));
+        }
+        return None;
+    }
+    // `[text](url)` shaped links: the destination is what follows the "](" that closes the link text (the last one that
+    // is followed by the destination, optionally after spaces or an opening angle bracket)
     if l.kind != LKind::Inline || !src.starts_with('[') || !src.ends_with(')') {
         return None;
     }
-    let open = src.find("](")? + 2;
-    if !src[open..].starts_with(&l.dest) {
-        return None;
+    let mut found = None;
+    for (i, _) in src.match_indices("](") {
+        let mut open = i + 2;
+        while src[open..].starts_with(' ') || src[open..].starts_with('<') {
+            open += 1;
+        }
+        let rest = &src[open..];
+        if rest.starts_with(&l.dest) && matches!(rest[l.dest.len()..].chars().next(), Some(')') | Some(' ') | Some('>') | Some('"')) {
+            found = Some(open);
+        }
     }
+    let open = found?;
     Some((l.range.start + open, l.range.start + open + l.dest.len()))
 }
 
